@@ -14,7 +14,7 @@ pub enum FiniteDomain {
 impl FiniteDomain {
     pub fn is_singleton(&self) -> bool {
         match self {
-            FiniteDomain::Interval(r) => (r.end() - r.start()).saturating_add(1) == 1,
+            FiniteDomain::Interval(r) => r.start() == r.end(),
             FiniteDomain::Sparse(v) => v.len() == 1,
         }
     }
@@ -45,11 +45,11 @@ impl FiniteDomain {
         match self {
             FiniteDomain::Interval(r) => match r.clone().into_iter().find(predicate) {
                 Some(u) => {
-                    let r = *r.start()..=u.saturating_sub(1);
-                    if r.is_empty() {
+                    if u == *r.start() {
+                        // Nothing precedes the first value of the domain
                         None
                     } else {
-                        Some(FiniteDomain::Interval(r))
+                        Some(FiniteDomain::Interval(*r.start()..=u - 1))
                     }
                 }
                 None => Some(self.clone()),
@@ -225,7 +225,8 @@ impl FiniteDomain {
 
 impl PartialEq for FiniteDomain {
     fn eq(&self, other: &FiniteDomain) -> bool {
-        self.diff(other).is_none()
+        // Set equality: neither domain has a value that the other one lacks.
+        self.diff(other).is_none() && other.diff(self).is_none()
     }
 }
 
@@ -284,6 +285,7 @@ impl From<Vec<isize>> for FiniteDomain {
             panic!("Cannot construct empty finite domain");
         }
         v.sort();
+        v.dedup();
         FiniteDomain::Sparse(v)
     }
 }
